@@ -91,7 +91,7 @@ func run(h *common.History) {
 		}
 		return t0.Add(time.Duration(ns))
 	}
-	reqCh := make(chan struct{}, 1024)
+	reqCh := make(chan int, 1024) // size of the destination slice of the requested read
 	type res struct {
 		t   int64
 		cls int
@@ -101,8 +101,8 @@ func run(h *common.History) {
 	done := make(chan struct{})
 	go func() {
 		defer close(done)
-		for range reqCh {
-			buf := make([]byte, 16)
+		for size := range reqCh {
+			buf := make([]byte, size)
 			n, err := a.read(buf)
 			r := res{t: int64(time.Since(t0))}
 			switch {
@@ -137,7 +137,9 @@ func run(h *common.History) {
 		case "3":
 			a.deliver([]byte{byte(common.AtoI(op[2])), 1, 2})
 		case "4":
-			reqCh <- struct{}{}
+			reqCh <- 16
+		case "5":
+			reqCh <- 0 // a zero-length read, only scripted while the deadline in force has passed: must time out too
 		}
 		synctest.Wait()
 		if a.afterEvent != nil {
@@ -183,6 +185,7 @@ func gen(r *rand.Rand, kind int) *common.History {
 	}
 	n := 8 + r.IntN(30)
 	id := 0
+	curDL := int64(0) // the deadline in force
 	for i := 0; i < n; i++ {
 		now = fresh(now + []int64{1 * ms, 3 * ms, 10 * ms, 10 * ms, 2000 * ms, 50 * ms}[r.IntN(6)] + r.Int64N(1000))
 		switch c := r.IntN(100); {
@@ -202,6 +205,9 @@ func gen(r *rand.Rand, kind int) *common.History {
 				d = fresh(now + 2000*ms)
 			case 4:
 				d = fresh(now + 3600000*ms)
+				if r.IntN(2) == 0 {
+					d = fresh(now + 280*365*24*3600000*ms) // beyond the year 2262 (the bubble's clock starts in 2000)
+				}
 			default:
 				d = fresh(now + 25*ms)
 			}
@@ -210,11 +216,16 @@ func gen(r *rand.Rand, kind int) *common.History {
 				which = "2"
 			}
 			h.Ops = append(h.Ops, []string{common.I(now), which, common.I(d)})
+			curDL = d
 		case c < 55:
 			id = id%250 + 1
 			h.Ops = append(h.Ops, []string{common.I(now), "3", common.I(id)})
 		default:
-			h.Ops = append(h.Ops, []string{common.I(now), "4"})
+			if curDL != 0 && curDL < now && r.IntN(3) == 0 {
+				h.Ops = append(h.Ops, []string{common.I(now), "5"})
+			} else {
+				h.Ops = append(h.Ops, []string{common.I(now), "4"})
+			}
 		}
 	}
 	now = fresh(now + 4000000*ms)
